@@ -349,8 +349,9 @@ fn should_indent_further<'a>(trivia: impl Iterator<Item = &'a Token>, shape: Sha
                     let indent_level = if last_line.clone().any(|c| matches!(c, '\t')) {
                         last_line.filter(|c| matches!(c, '\t')).count()
                     } else {
+                        // an indent width of 0 is accepted as a configuration: every space then counts as a level
                         last_line.filter(|c| matches!(c, ' ')).count()
-                            / shape.indent().configured_indent_width()
+                            / shape.indent().configured_indent_width().max(1)
                     };
 
                     if indent_level > current_indent_level {
